@@ -9,6 +9,7 @@ the field on every single-attribute perturbation; every built-in policy passes o
 """
 import copy
 import json
+import os
 
 from common import Coverage, tstr
 from props.policy_common import policy_tokens, peer_tokens, impl_evaluate, mk_kex, FakeBanner
@@ -226,6 +227,7 @@ def run(ctx):
         cov.add(('builtin', name), True, tags=['builtin-policy'])
         if not res['passed'] or res['errors']:
             fail('builtin_policy_fails_on_own_peer', {'policy': name}, res, 'passes with no errors')
+    whole_audit_stage(ctx, fail, cov)
     model = ctx.driver(lines) if ctx.driver_ok else []
     for line, m, (kind, want, _) in zip(lines, model, expect):
         got = m.get('ok')
@@ -238,8 +240,174 @@ def run(ctx):
                               'never re-uses a Policy object (one deep copy per target), so this is outside the property\'s quantifier' % stale[0]] if stale[0] else [])}
 
 
+# ---------------------------------------------------------------- whole audits: -M on a scripted server, -P on the same server and on a drifted one
+
+def _wa_server(spec):
+    """scripted server from a JSON-able description: lists, per host-key type what is presented, the moduli the server hands out"""
+    import fakenet as fn
+    cas = {'rsa2048': fn.rsa_blob(2048), 'rsa3072': fn.rsa_blob(3072), 'rsa4096': fn.rsa_blob(4096), 'ed25519': fn.ed25519_blob(b'\x51' * 32), 'ecdsa': fn.ecdsa_blob('nistp256')}
+    hostkeys = {}
+    for t, d in spec['hostkeys'].items():
+        if d['kind'] == 'rsa':
+            hostkeys[t] = fn.rsa_blob(d['bits'])
+        elif d['kind'] == 'ed25519':
+            hostkeys[t] = fn.ed25519_blob()
+        elif d['kind'] == 'ecdsa':
+            hostkeys[t] = fn.ecdsa_blob('nistp256')
+        elif d['kind'] == 'rsa-cert':
+            hostkeys[t] = fn.cert_blob('ssh-rsa-cert-v01@openssh.com', fn.mpint(65537) + fn.mpint((1 << (d['bits'] - 1)) | 1), cas[d['ca']])   # the key type inside the blob is ssh-rsa-cert for all three RSA certificate algorithms
+        elif d['kind'] == 'ed25519-cert':
+            hostkeys[t] = fn.cert_blob(t, fn.sstr(b'\x42' * 32), cas[d['ca']])
+    mods = sorted(spec.get('moduli') or [])
+
+    def gex(mn, pf, mx):
+        ok = [m for m in mods if mn <= m <= mx]
+        if not ok:
+            return None
+        up = [m for m in ok if m >= pf]
+        return up[0] if up else ok[-1]
+    return fn.simple_server(kex=tuple(spec['kex']), key=tuple(spec['key']), enc=tuple(spec['enc']), mac=tuple(spec['mac']), banner=spec['banner'].encode(), hostkeys=hostkeys, gex=gex if mods else None)
+
+
+def _wa_run(args, spec):
+    import fakenet as fn
+    return fn.run_main(['-n', '--skip-rate-test'] + args + ['10.5.0.1'], fn.FakeNet({'10.5.0.1': _wa_server(spec)}))
+
+
+def _wa_gen(r):
+    rsa_bits = r.choice([2048, 3072, 4096])
+    hostkeys = {'ssh-ed25519': {'kind': 'ed25519'}}
+    key = ['ssh-ed25519']
+    for t in r.sample(['rsa-sha2-512', 'rsa-sha2-256', 'ssh-rsa'], r.randint(0, 3)):
+        hostkeys[t] = {'kind': 'rsa', 'bits': rsa_bits}
+        key.append(t)
+    # several RSA certificate algorithms, each with a certificate of its own (other key size, other CA): seed C05-8
+    for t in r.sample(['rsa-sha2-512-cert-v01@openssh.com', 'rsa-sha2-256-cert-v01@openssh.com', 'ssh-rsa-cert-v01@openssh.com'], r.randint(0, 3)):
+        hostkeys[t] = {'kind': 'rsa-cert', 'bits': r.choice([2048, 3072, 4096]), 'ca': r.choice(['rsa2048', 'rsa3072', 'rsa4096', 'ed25519', 'ecdsa'])}
+        key.append(t)
+    if r.random() < 0.4:
+        hostkeys['ssh-ed25519-cert-v01@openssh.com'] = {'kind': 'ed25519-cert', 'ca': r.choice(['rsa2048', 'rsa4096', 'ed25519'])}
+        key.append('ssh-ed25519-cert-v01@openssh.com')
+    r.shuffle(key)
+    kex = ['curve25519-sha256'] + r.sample(['diffie-hellman-group-exchange-sha256', 'diffie-hellman-group-exchange-sha1', 'diffie-hellman-group14-sha256', 'kex-strict-s-v00@openssh.com'], r.randint(1, 3))
+    return {'kex': kex, 'key': key, 'enc': r.sample(['aes256-ctr', 'aes128-ctr', 'chacha20-poly1305@openssh.com', 'aes256-gcm@openssh.com'], r.randint(1, 3)),
+            'mac': r.sample(['hmac-sha2-256-etm@openssh.com', 'hmac-sha2-512', 'umac-128-etm@openssh.com'], r.randint(1, 2)), 'banner': 'SSH-2.0-OpenSSH_9.6',
+            'hostkeys': hostkeys, 'moduli': r.choice([[2048], [3072], [2048, 4096], [4096], [1024, 2048]])}
+
+
+def _wa_drifts(r, spec):
+    """(drifted spec, field the failed audit must name)"""
+    out = []
+    for t, d in spec['hostkeys'].items():
+        if d['kind'] in ('rsa', 'rsa-cert'):
+            s2 = copy.deepcopy(spec)
+            nb = 4096 if d['bits'] != 4096 else 3072
+            if d['kind'] == 'rsa':
+                for t2, d2 in s2['hostkeys'].items():       # one RSA key for the whole RSA family
+                    if d2['kind'] == 'rsa':
+                        d2['bits'] = nb
+            else:
+                s2['hostkeys'][t]['bits'] = nb
+            out.append((s2, 'Host key (%s) sizes' % t, 'key-size:' + d['kind']))
+        if d['kind'] in ('rsa-cert', 'ed25519-cert'):
+            s2 = copy.deepcopy(spec)
+            if d['ca'].startswith('rsa'):
+                s2['hostkeys'][t]['ca'] = 'rsa4096' if d['ca'] != 'rsa4096' else 'rsa2048'
+                out.append((s2, 'CA signature size', 'ca-size'))
+                s3 = copy.deepcopy(spec)
+                s3['hostkeys'][t]['ca'] = 'ed25519'
+                out.append((s3, 'CA signature type', 'ca-type'))
+            else:
+                s2['hostkeys'][t]['ca'] = 'rsa4096'
+                out.append((s2, 'CA signature type', 'ca-type'))
+    if any('group-exchange' in k for k in spec['kex']):
+        s2 = copy.deepcopy(spec)
+        s2['moduli'] = [r.choice([m for m in (2048, 3072, 4096) if m not in spec['moduli']])]
+        out.append((s2, 'Group exchange', 'modulus'))
+    for cat, fieldname in (('kex', 'Key exchanges'), ('key', 'Host keys'), ('enc', 'Ciphers'), ('mac', 'MACs')):
+        extra = {'kex': 'ecdh-sha2-nistp256', 'key': 'ecdsa-sha2-nistp256', 'enc': 'aes192-ctr', 'mac': 'hmac-sha1'}[cat]
+        s2 = copy.deepcopy(spec)
+        s2[cat] = s2[cat] + [extra]
+        if cat == 'key':
+            s2['hostkeys'][extra] = {'kind': 'ecdsa'}
+        out.append((s2, fieldname, 'list-added:' + cat))
+        if len(spec[cat]) > 1:
+            s3 = copy.deepcopy(spec)
+            s3[cat] = s3[cat][1:] + s3[cat][:1]
+            out.append((s3, fieldname, 'list-reordered:' + cat))
+    return out
+
+
+def _wa_judge(spec, drifted, field, fail, tmpdir, tag):
+    """-M on spec, -P on spec (must pass, exit 0) and on the drifted server (must fail, exit 3, naming the field)"""
+    pol = os.path.join(tmpdir, 'pol-%d.txt' % len(os.listdir(tmpdir)))
+    code, out = _wa_run(['-M', pol], spec)
+    inp = {'whole_audit': True, 'server': spec}
+    if code != 0 or not os.path.exists(pol):
+        fail('make_policy_failed', inp, {'exit': code, 'stdout': out[-300:]}, 'a policy file and exit 0')
+        return
+    code, out = _wa_run(['-P', pol], spec)
+    if code != 0 or 'Passed' not in out:
+        fail('made_policy_fails_on_own_target', inp, {'exit': code, 'stdout': out[-400:]}, 'passes (exit 0) on the server it was made from')
+    def measured(sp):
+        try:
+            doc = json.loads(_wa_run(['-j'], sp)[1])
+            return {e['algorithm']: e.get('keysize') for e in doc['kex'] if 'keysize' in e}
+        except Exception:
+            return None
+    for d, f_, kind in drifted:
+        if kind == 'modulus':
+            # only a modulus the standard audit measures on both servers, with different results, is a drift the policy can see
+            m0, m1 = measured(spec), measured(d)
+            if not m0 or not m1 or not any(k in m1 and m1[k] != v for k, v in m0.items()):
+                continue
+        code, out = _wa_run(['-P', pol], d)
+        named = [l[4:].split(' did not match')[0] for l in out.split('\n') if l.startswith('  * ') and ' did not match' in l]
+        if code != 3 or 'Failed' not in out or not any(n.startswith(f_) for n in named):
+            fail('drift_not_detected', dict(inp, drifted=d, drift=kind), {'exit': code, 'fields_named': named, 'stdout': out[-200:]}, 'exit 3, Failed, naming %r' % f_)
+
+
+def whole_audit_stage(ctx, fail, cov):
+    import shutil
+    import tempfile
+    r = ctx.rng
+    d = tempfile.mkdtemp(prefix='verif_c05_')
+    try:
+        fixed = {'kex': ['curve25519-sha256', 'diffie-hellman-group-exchange-sha256'], 'key': ['rsa-sha2-512-cert-v01@openssh.com', 'rsa-sha2-256-cert-v01@openssh.com', 'ssh-ed25519'],
+                 'enc': ['aes256-ctr'], 'mac': ['hmac-sha2-256-etm@openssh.com'], 'banner': 'SSH-2.0-OpenSSH_9.6', 'moduli': [3072],
+                 'hostkeys': {'ssh-ed25519': {'kind': 'ed25519'}, 'rsa-sha2-512-cert-v01@openssh.com': {'kind': 'rsa-cert', 'bits': 3072, 'ca': 'rsa4096'},
+                              'rsa-sha2-256-cert-v01@openssh.com': {'kind': 'rsa-cert', 'bits': 4096, 'ca': 'rsa3072'}}}
+        specs = [fixed] + [_wa_gen(r) for _ in range(ctx.scale(7, 120))]
+        for spec in specs:
+            drifts = _wa_drifts(r, spec)
+            if ctx.tier != 'thorough' and len(drifts) > 7 and spec is not fixed:
+                drifts = r.sample(drifts, 7)
+            cov.add(('whole-audit', json.dumps(spec, sort_keys=True)), True, tags=['whole-audit-make-then-audit'] + ['drift:' + k for _, _, k in drifts])
+            for _ in drifts:
+                cov.add(('whole-audit-drift', json.dumps(_[0], sort_keys=True), _[2]), True, tags=['whole-audit-drift'])
+            _wa_judge(spec, drifts, None, fail, d, None)
+    finally:
+        shutil.rmtree(d, ignore_errors=True)
+
+
 def replay(obj):
     f = obj.get('failure', obj)
+    if f['input'].get('whole_audit'):
+        import shutil
+        import tempfile
+        fails = []
+        d = tempfile.mkdtemp(prefix='verif_c05_')
+        try:
+            drifted = [(f['input']['drifted'], {'key-size': 'Host key', 'ca-size': 'CA signature size', 'ca-type': 'CA signature type', 'modulus': 'Group exchange'}.get(f['input']['drift'].split(':')[0],
+                        {'kex': 'Key exchanges', 'key': 'Host keys', 'enc': 'Ciphers', 'mac': 'MACs'}.get(f['input']['drift'].split(':')[-1], '')), f['input']['drift'])] if 'drifted' in f['input'] else []
+            _wa_judge(f['input']['server'], drifted, None, lambda k, i, o, e: fails.append((k, o, e)), d, None)
+        finally:
+            shutil.rmtree(d, ignore_errors=True)
+        for k, o, e in fails:
+            print('PROPERTY FAILS', k, 'observed', json.dumps(o)[:500], 'expected', e)
+        if not fails:
+            print('-M then -P: passes on its own target and fails, naming the field, on the drifted one')
+        return 1 if fails else 0
     q = f['input'].get('peer')
     if q is None:
         print(json.dumps(f, indent=1)[:1500])
